@@ -33,6 +33,8 @@ def shards(tier, seed):
             out.append({"kind": "sample3", "count": 1000, "seed": seed, "shard": i})
     for i in range(8 if tier == "quick" else 16):
         out.append({"kind": "random", "count": 250 if tier == "quick" else 4000, "seed": seed, "shard": i, "nmax": 12})
+    for i in range(2 if tier == "quick" else 8):
+        out.append({"kind": "words", "count": 400 if tier == "quick" else 5000, "seed": seed, "shard": i})
     out.append({"kind": "graphs_all", "nmax": 4 if tier == "quick" else 5, "seed": seed, "shard": 0})
     for i in range(2 if tier == "quick" else 8):
         out.append({"kind": "graphs_random", "count": 150 if tier == "quick" else 1500, "seed": seed, "shard": i})
@@ -42,7 +44,7 @@ def shards(tier, seed):
 def floors(tier):
     return {"inverse:calls": 7000 if tier == "quick" else 200000, "clifford_from_stabilizer:calls": 2000, "inverse:n>=13": 80, "graph_tableau:asked_again_after_use": 300,
             "graph_tableau:calls": 300, "inverse:with_Y_entries": 1000, "inverse:with_negative_sign": 1000,
-            "inverse:circuit_has_P": 500, "reverse_run:calls": 2000, "dense_crosscheck": 200, "inverse:low_sign_presentations": 300}
+            "inverse:circuit_has_P": 500, "reverse_run:calls": 2000, "run_circuit:words": 700, "run_circuit:reversed_words_with_P_dag": 150, "dense_crosscheck": 200, "inverse:low_sign_presentations": 300}
 
 
 def run_shard(spec, ctx):
@@ -63,6 +65,9 @@ def run_shard(spec, ctx):
         for _ in range(spec["count"]):
             s = states[int(rng.integers(len(states)))]
             check_state(stab.random_presentation(rng, s), ctx, full=True)
+    elif k == "words":
+        for i in range(spec["count"]):
+            check_word(int(rng.integers(1, 9)), int(rng.integers(2 ** 31)), ctx)
     elif k == "random":
         for i in range(spec["count"]):
             n = int(rng.integers(4, spec["nmax"] + 1))
@@ -87,7 +92,9 @@ def run_shard(spec, ctx):
 
 
 def replay(case, ctx):
-    if case["kind"] == "state":
+    if case["kind"] == "word":
+        check_word(case["n"], case["wseed"], ctx)
+    elif case["kind"] == "state":
         check_state(pauli.PTab.from_labels(case["labels"]), ctx, full=True)
     else:
         check_graph(np.array(case["adj"]), case.get("order"), ctx)
@@ -174,6 +181,56 @@ def check_state(a, ctx, full=True):
             ctx.count("dense_crosscheck")
             if not np.allclose(dense.projector_of_group(gq.clifford_stab_ptab(ct)), dense.projector_of_group(a), atol=1e-9, rtol=0):
                 ctx.violation("clifford_tableau_wrong_state_dense", case, det, key="cfs_state")
+
+
+def check_word(n, wseed, ctx):
+    """run_circuit over its whole vocabulary, forward and as the inverse (reverse=True: reversed order, P <-> P_dag), through the
+    module function and through Stabilizer.apply_circuit, from a random start state"""
+    import graphiq.backends.stabilizer.functions.transformation as transform
+    from graphiq.backends.stabilizer.state import Stabilizer
+    rng = np.random.default_rng(wseed)
+    start = pauli.random_stabilizer_group(rng, n)
+    L = int(rng.integers(1, 12))
+    word = []
+    for _ in range(L):
+        g = ["H", "P", "P_dag", "P_dag", "X", "Y", "Z", "I", "CNOT", "CZ"][int(rng.integers(10))]
+        if g in ("CNOT", "CZ"):
+            if n < 2:
+                continue
+            a_, b_ = (int(v) for v in rng.choice(n, 2, replace=False))
+            word.append((g, a_, b_))
+        else:
+            word.append((g, int(rng.integers(n))))
+    rev = bool(rng.integers(2))
+    via = ["run_circuit", "Stabilizer.apply_circuit"][int(rng.integers(2))]
+    case = {"kind": "word", "n": n, "wseed": wseed}
+    ctx.case(("word", n, wseed), True, {"start": start.labels(), "word": [list(g) for g in word], "reverse": rev, "via": via} if ctx.evaluations % 800 == 0 else None)
+    ctx.count("run_circuit:words")
+    if rev and any(g[0] == "P_dag" for g in word):
+        ctx.count("run_circuit:reversed_words_with_P_dag")
+    exp = start.copy()
+    for g in (reversed(word) if rev else word):
+        nm = (INV if rev else FWD)[g[0]]
+        if nm != "i":
+            exp.apply(nm, *[int(q) for q in g[1:]])
+    try:
+        t0 = gq.ptab_to_clifford(start, rng, random_destab_phase=True)
+        if via == "run_circuit":
+            t1 = transform.run_circuit(t0, [tuple(g) for g in word], reverse=rev)
+        else:
+            st = Stabilizer(t0)
+            st.apply_circuit([tuple(g) for g in word], reverse=rev)
+            t1 = st.tableau
+    except Exception as e:
+        ctx.violation("run_circuit_raises", case, {"exception": f"{type(e).__name__}: {e}"[:300], "word": [list(g) for g in word], "reverse": rev, "via": via}, key="word_exc")
+        return
+    probs = pauli.check_clifford_tableau(*gq.clifford_snapshot(t1))
+    if probs:
+        ctx.violation("run_circuit_invalid_tableau", case, {"problems": probs[:3], "word": [list(g) for g in word], "reverse": rev, "via": via}, key="word_invalid")
+    elif not gq.clifford_stab_ptab(t1).same_group(exp):
+        ctx.violation("run_circuit_wrong_state", case, {"word": [list(g) for g in word], "reverse": rev, "via": via, "start": start.labels(),
+                                                        "got": gq.clifford_stab_ptab(t1).labels()[:10], "expected": exp.labels()[:10]},
+                      key="word_state:" + ("reverse" if rev else "forward"))
 
 
 def check_graph(A, order, ctx):
